@@ -305,6 +305,7 @@ def verify(contract: Contract, src: SourceIndex = None, contracts=None, timeout_
         extra_ctx(ctx)
     ctx.loop_specs = dict(getattr(contract, "loops", {}) or {})
     ctx.while_specs = dict(getattr(contract, "while_loops", {}) or {})
+    ctx.comp_loop_specs = dict(getattr(contract, "comprehension_loops", {}) or {})
     hook = getattr(contract, "configure", None)
     if hook:
         hook(ctx)
